@@ -140,6 +140,9 @@ func validateAgainst(typ graphql.Type, ss *graphql.SelectionSet) string {
 }
 
 type partition struct {
+	// dead is set once a request on this gateway was found parked for good:
+	// later requests on it would only wait for the same verdict
+	dead     int32
 	idx      int
 	services []string
 	owners   map[string][]string // "Type.field" -> services
@@ -302,6 +305,10 @@ func TestCheck(t *testing.T) {
 }
 
 func oneQuery(run *vlib.Run, sd *gen.SchemaDesc, mono *graphql.Schema, p *partition, pi, qi int) {
+	if atomic.LoadInt32(&p.dead) != 0 {
+		run.Count("queries_skipped_on_a_gateway_found_parked", 1)
+		return
+	}
 	caseIdx := pi*100000 + qi
 	r := rand.New(rand.NewSource(run.Rand("query", caseIdx).Int63()))
 	w := gen.NewWorld(uint64(r.Int63()), 4+r.Intn(10), 3+r.Intn(6))
@@ -397,21 +404,35 @@ func oneQuery(run *vlib.Run, sd *gen.SchemaDesc, mono *graphql.Schema, p *partit
 			ch <- gres{v, err}
 		}()
 		var got interface{}
-		select {
-		case g := <-ch:
-			got, err = g.v, g.err
-		case <-time.After(20 * time.Second):
-			// stuck or slow? sample twice: goroutines parked in thunder's federation code with no progress
-			s1 := len(vlib.ThunderGoroutines())
-			time.Sleep(500 * time.Millisecond)
+		arrived := false
+		done := func() bool {
+			if arrived {
+				return true
+			}
 			select {
 			case g := <-ch:
-				got, err = g.v, g.err
+				got, err, arrived = g.v, g.err, true
 			default:
-				run.Violation(caseIdx, classify("gateway hang", ""), map[string]interface{}{"what": "gateway request did not return (20 s, no progress) on a query the combined server answers at once",
-					"query": text, "variables": vars, "partition": p.describe(), "thunder_goroutines": s1, "stacks": vlib.Trunc(strings.Join(vlib.ThunderGoroutines(), "\n\n"), 5000)})
-				return
 			}
+			return arrived
+		}
+		serviceCalls := func() int64 {
+			var n int64
+			for _, c := range p.clients {
+				n += atomic.LoadInt64(&c.calls)
+			}
+			return n
+		}
+		switch vlib.AwaitOrParked(done, serviceCalls, 20*time.Second, 15*time.Minute) {
+		case vlib.QuiescentNot:
+			// no goroutine inside thunder is busy, nothing moves, and the request has not returned
+			atomic.StoreInt32(&p.dead, 1)
+			run.Violation(caseIdx, classify("gateway hang", ""), map[string]interface{}{"what": "gateway request did not return and the process is parked (no busy goroutine inside thunder, no service call) on a query the combined server answers",
+				"query": text, "variables": vars, "partition": p.describe(), "stacks": vlib.Trunc(strings.Join(vlib.ThunderGoroutines(), "\n\n"), 5000)})
+			return
+		case vlib.Undecided:
+			run.Inconclusive(fmt.Sprintf("case %d: gateway request still running (busy, not parked) at the hard deadline", caseIdx))
+			return
 		}
 		wit := map[string]interface{}{"query": text, "variables": vars, "partition": p.describe(), "repetition": rep,
 			"world": map[string]interface{}{"seed": w.Seed, "n": w.N, "m": w.M}, "want": vlib.Trunc(wantC, 2500)}
@@ -482,28 +503,52 @@ func cancelLeg(run *vlib.Run, p *partition, caseIdx int, r *rand.Rand, base cont
 		v, _, err := p.gateway.Execute(context.WithValue(cctx, cancelKey{}, plan), q2, nil)
 		ch <- gres{v, err}
 	}()
-	select {
-	case g := <-ch:
-		run.Count("cancel_mid_request_runs", 1)
-		if g.err != nil {
-			run.Count("cancel_mid_request_returned_error", 1)
-			return
+	var g gres
+	arrived := false
+	done := func() bool {
+		if arrived {
+			return true
 		}
-		gotS := strip(g.v)
-		if vlib.Canon(gotS) == wantC {
-			return
+		select {
+		case g = <-ch:
+			arrived = true
+		default:
 		}
-		wantS, _ := vlib.ToJSONForm(strip(want))
-		if n := dropInjectedTypename(gotS, wantS); n > 0 && vlib.Canon(gotS) == wantC {
-			return
-		}
-		run.Violation(caseIdx, "", map[string]interface{}{"what": "request context cancelled while a hop was in flight: the gateway reported success with a result that differs from the combined server's (partial document)",
-			"query": text, "variables": vars, "partition": p.describe(), "cancel_at_service_call": plan.after, "service_calls": calls,
-			"got": vlib.Trunc(vlib.Canon(strip(g.v)), 2500), "want": vlib.Trunc(wantC, 2500)})
-	case <-time.After(30 * time.Second):
-		run.Violation(caseIdx, "", map[string]interface{}{"what": "gateway request did not return within 30 s after its context was cancelled mid-request",
-			"query": text, "variables": vars, "partition": p.describe(), "cancel_at_service_call": plan.after, "stacks": vlib.Trunc(strings.Join(vlib.ThunderGoroutines(), "\n\n"), 5000)})
+		return arrived
 	}
+	serviceCalls := func() int64 {
+		var n int64
+		for _, c := range p.clients {
+			n += atomic.LoadInt64(&c.calls)
+		}
+		return n
+	}
+	switch vlib.AwaitOrParked(done, serviceCalls, 20*time.Second, 15*time.Minute) {
+	case vlib.QuiescentNot:
+		atomic.StoreInt32(&p.dead, 1)
+		run.Violation(caseIdx, "", map[string]interface{}{"what": "gateway request did not return after its context was cancelled mid-request and the process is parked",
+			"query": text, "variables": vars, "partition": p.describe(), "cancel_at_service_call": plan.after, "stacks": vlib.Trunc(strings.Join(vlib.ThunderGoroutines(), "\n\n"), 5000)})
+		return
+	case vlib.Undecided:
+		run.Inconclusive(fmt.Sprintf("case %d: cancelled gateway request still running (busy, not parked) at the hard deadline", caseIdx))
+		return
+	}
+	run.Count("cancel_mid_request_runs", 1)
+	if g.err != nil {
+		run.Count("cancel_mid_request_returned_error", 1)
+		return
+	}
+	gotS := strip(g.v)
+	if vlib.Canon(gotS) == wantC {
+		return
+	}
+	wantS, _ := vlib.ToJSONForm(strip(want))
+	if n := dropInjectedTypename(gotS, wantS); n > 0 && vlib.Canon(gotS) == wantC {
+		return
+	}
+	run.Violation(caseIdx, "", map[string]interface{}{"what": "request context cancelled while a hop was in flight: the gateway reported success with a result that differs from the combined server's (partial document)",
+		"query": text, "variables": vars, "partition": p.describe(), "cancel_at_service_call": plan.after, "service_calls": calls,
+		"got": vlib.Trunc(vlib.Canon(strip(g.v)), 2500), "want": vlib.Trunc(wantC, 2500)})
 }
 
 func firstLine(s string) string {
